@@ -9,7 +9,10 @@ def _collect():
     import vlib.families
     out = {}
     for m in sorted(pkgutil.iter_modules(vlib.families.__path__), key=lambda m: m.name):
-        mod = importlib.import_module("vlib.families." + m.name)
+        try:
+            mod = importlib.import_module("vlib.families." + m.name)
+        except Exception:
+            continue
         if not getattr(mod, "READY", False):
             continue
         out.update(getattr(mod, "MANIFEST", {}))
